@@ -10,3 +10,11 @@ pub struct ExIoError(std::io::Error);
 pub proof fn axiom_slice_len_bound<T>(s: &[T]) ensures s@.len() <= usize::MAX {}
 #[verifier::external_body]
 pub proof fn axiom_vec_len_bound<T>(v: &Vec<T>) ensures v@.len() <= usize::MAX {}
+// `.map_err(|_| E)` is written `.map_err_to(E)` by rule R19
+pub trait MapErrTo<T, E> { fn map_err_to<F>(self, e: F) -> std::result::Result<T, F>; }
+impl<T, E> MapErrTo<T, E> for std::result::Result<T, E> {
+    #[verifier::external_body]
+    fn map_err_to<F>(self, e: F) -> (r: std::result::Result<T, F>)
+        ensures match self { Ok(v) => r == Ok::<T, F>(v), Err(_) => r == Err::<T, F>(e) },
+    { unimplemented!() }
+}
